@@ -1122,6 +1122,11 @@ pub fn run(ctx: &mut Ctx) {
         for m in [0usize, 1, 2, 3, 150] {
             check_snippet(ctx, &Tk::Ngram { min: 1, max: 3, prefix: false }, &[], "abcd", &t2, m, "corpus", None);
         }
+        // second route to the highlight-outside-fragment finding: a stop-word filter drops the last
+        // n-grams, with the default max_num_chars
+        let mut t3 = BTreeMap::new();
+        t3.insert("bcd".to_string(), 0.5f32);
+        check_snippet(ctx, &Tk::Ngram { min: 1, max: 3, prefix: false }, &[Fl::Stop(vec!["d".into(), "cd".into()])], "abcd", &t3, 150, "corpus", None);
         check_tokens(ctx, &Tk::Facet, &[], "top\0a\0b");
         // found by the thorough tier: in-place filters rewrite the buffer the facet tokenizer appends to
         check_tokens(ctx, &Tk::Facet, &[Fl::Stem("Turkish".into()), Fl::Stem("French".into())], "👨\u{200d}👩\u{200d}👧naïve\0fahrtRusty");
